@@ -74,8 +74,19 @@ package ro
 
 //@ func (*connectableObservableImpl).SubscribeWithContext
 //@   props C11 C13
+//@   binds ctx observer
 //@   track source.* subject.*
 //@   ensures [never-touches-the-source|C11] !called(source.SubscribeWithContext) && called(subject.SubscribeWithContext)
+//@   ensures [subscribing-leaves-the-connection-state-alone|C11] atunlock(subject) == atlock(subject) && atunlock(subscription) == atlock(subscription) && !called(callfn.ANY)
+//@   ensures [joins-the-current-subject-with-its-own-context-and-observer|C11,C09] called(subject.SubscribeWithContext) && arg(subject.SubscribeWithContext, 0) == ctx && arg(subject.SubscribeWithContext, 1) == observer
+
+//@ func (*connectableObservableImpl).ConnectWithContext$1
+//@   note the disconnect callback: the subject is replaced only when the configuration says so, under the mutex
+//@   props C11 C13
+//@   binds s
+//@   track callfn.ANY config.Connector
+//@   ensures [keeps-the-subject-unless-reset-on-disconnect|C11] !s.config.ResetOnDisconnect ==> trace() && count(lock.mu) == 0
+//@   ensures [reset-on-disconnect-installs-a-fresh-subject-under-the-lock|C11,C13] s.config.ResetOnDisconnect ==> count(lock.mu) == 1
 
 // The Share flavours are ShareWithConfig with fixed options: these are their whole meaning.
 
